@@ -21,6 +21,7 @@ import OpyVerif.Generated.WalksDefs
 import OpyVerif.Generated.FindDefs
 import OpyVerif.Generated.PropsDefs
 import OpyVerif.Generated.SelectDefs
+import OpyVerif.Generated.HeapOpsDefs
 import OpyVerif.Generated.ClipLoopsDefs
 /-
 Line-protocol driver: runs the *executable model definitions* on inputs sent by the Python
@@ -162,6 +163,15 @@ def step (d : DState) (line : String) : DState × String :=
   | ["t.cross", f, m, pf, pm] => match parseTree f, parseTree m, pf.toNat?, pm.toNat? with
     | some f, some m, some pf, some pm =>
       (d, match PNode.cross f m pf pm with
+          | some (a, b) => canonTree a ++ " " ++ canonTree b | none => "error")
+    | _, _, _, _ => (d, "bad-op")
+  | ["w.mutate", t, p, b] => match parseTree t, p.toNat?, parseTree b with
+    | some t, some p, some b =>
+      (d, match Opy.runMutate Opy.Gen.mutFrame.cond Opy.Gen.mutateBody t p b with | some r => canonTree r | none => "error")
+    | _, _, _ => (d, "bad-op")
+  | ["w.cross", f, m, pf, pm] => match parseTree f, parseTree m, pf.toNat?, pm.toNat? with
+    | some f, some m, some pf, some pm =>
+      (d, match Opy.runCross Opy.Gen.crossFrame.cond Opy.Gen.crossBody f m pf pm with
           | some (a, b) => canonTree a ++ " " ++ canonTree b | none => "error")
     | _, _, _, _ => (d, "bad-op")
   | ["t.grow", funcs, nT, k, draws] => match parseNats funcs, nT.toNat?, k.toNat?, parseNats draws with
